@@ -152,6 +152,7 @@ type Sim struct {
 	ptrFresh int
 	failed   bool
 	siteCnt  map[int32]int64
+	chans    map[uintptr]*simChan
 }
 
 var (
@@ -199,6 +200,7 @@ func Run(cfg Config, root func()) Result {
 	if cur != nil {
 		panic("simrt: nested Run")
 	}
+	resetProgramState()
 	epochCtr++
 	s := &Sim{cfg: cfg, done: make(chan struct{}, 1), epoch: epochCtr, counters: map[string]int64{}}
 	s.rng.seed(cfg.Seed)
